@@ -195,6 +195,7 @@ class Contract:
         self.lets = []       # (name, expr text) evaluated at entry
         self.ghost = []
         self.asserts = []
+        self.assumes = []
         self.extern_params = []
         self.external_below = None
 
@@ -219,7 +220,7 @@ class SpecDef:
         return self._ast
 
 
-HEAD_RE = re.compile(r'^(requires|ensures|invariant|assert)\s+\[([^\]]+)\]\s*(?:\{([^}]*)\})?\s*(.*)$')
+HEAD_RE = re.compile(r'^(requires|ensures|invariant|assert|assumes)\s+\[([^\]]+)\]\s*(?:\{([^}]*)\})?\s*(.*)$')
 
 
 class ContractDB:
@@ -229,6 +230,8 @@ class ContractDB:
         self.axioms = []      # (label, text)
         self.files = []
         self.safety = {}      # property -> list of function patterns under the safety sweep
+        self.ewfnonnull = set()  # "Type.Field" fields that are never nil even in a tree parsed from erroneous text
+        self.uses_ewf = False
         self.nullable = set() # "Type.Field" pointer/interface fields that may be nil in a well-formed AST
         self.wfexclude = {}   # interface short name -> set of implementer short names never produced by the parser
         self.wfalso = {}      # struct short name -> list of extra well-formedness conditions over `self`
@@ -290,6 +293,10 @@ class ContractDB:
                 sd.view = (word == 'view')
                 self.specs[sd.name] = sd
                 last = sd
+            elif word == 'ewfnonnull':
+                self.ewfnonnull.update(rest.split())
+                self.uses_ewf = True
+                last = None
             elif word == 'nullable':
                 self.nullable.update(rest.split())
                 last = None
@@ -334,7 +341,7 @@ class ContractDB:
             elif word == 'loop':
                 curloop = cur.loop(int(rest.split()[0]))
                 last = None
-            elif word in ('requires', 'ensures', 'invariant', 'assert'):
+            elif word in ('requires', 'ensures', 'invariant', 'assert', 'assumes'):
                 m = HEAD_RE.match(body)
                 if not m:
                     raise ParseError('%s:%d: clause needs a [label]: %s' % (path, ln, body))
@@ -345,6 +352,9 @@ class ContractDB:
                     cur.requires.append(c)
                 elif word == 'ensures':
                     cur.ensures.append(c)
+                elif word == 'assumes':
+                    # a postcondition callers rely on that is NOT proved in the function: an explicit assumption
+                    cur.assumes.append(c)
                 elif word == 'invariant':
                     if curloop is None:
                         raise ParseError('%s:%d: invariant outside loop' % (path, ln))
